@@ -12,6 +12,12 @@ Correspondence families
                accepted by the Lean specification checker `Qv.Reduce.replay` and reproduces the returned
                matrix exactly.  This is the tie the theorems of Qv/Props/C01.lean need.
   labels       the same abstract case under three label realisations gives the same abstract result
+  history      (all of the above on) ONE model object converted several times, with steps in between that change
+               the mapping and/or the terms: refresh() after construction from keys in non-canonical order,
+               set_mapping / set_reverse_mapping with a permutation, clear() + rebuild in another order, `*=` by a
+               scalar or a constant dict, an item update, a conversion of a copy.  Every conversion is compared
+               with the Lean model fed the bookkeeping the code reads at that moment, and judged by the oracle
+               when the bookkeeping is consistent (mapping a bijection between the variables and 0..n-1).
 Direct oracle (independent of the Lean model): truth tables over all variables of D (n + ancillas <= 16).
 """
 import itertools, json, math, os
@@ -24,7 +30,7 @@ RULE = ("random PUBO/PUSO/PCBO/PCSO built from a dict, or term by term with a ca
         "(thorough: <= 9 variables, degree <= 8), raw keys in random label order, coefficients int / Fraction / "
         "dyadic float; targets to_qubo, to_quso, to_pubo(deg), to_puso(deg) with deg in {None,2,3,4} (+ malformed "
         "deg 0/1); lam None / constant (incl. 0 and too small) / callable from a fixed menu; pairs none / valid / "
-        "partly unknown labels; each abstract case under three label realisations.  A case is non-trivial when "
+        "partly unknown labels; each abstract case under three label realisations; plus histories of 2-4 conversions of one object with mapping-/term-changing steps in between.  A case is non-trivial when "
         "the reduction performed at least one step; distinct = distinct case JSON")
 ASSUMPTIONS = [
     "the oracle's models are in the refreshed bookkeeping state (built from a dict of distinct non-zero terms, or refreshed after incremental edits), as in the property's quantifier; stale states are covered by the correspondence only",
@@ -201,6 +207,11 @@ def finite_degree(d):
 def run_impl(case):
     """returns dict(canon=..., M=, R=, L=, info for the Lean lines)"""
     M, L = build(case)
+    return observe(case, M, L)
+
+def observe(case, M, L):
+    """one conversion of the (possibly already used) model object M; the bookkeeping the code reads at this
+    moment (items, mapping, num_binary_variables, cached degree) is what the Lean model is fed"""
     spin = case["kind"] in SPIN
     info = {"M": M, "L": L, "R": None, "cert": None, "Dbool": None}
     info["terms"] = [[L.ids(k), fs(v)] for k, v in M.items()]
@@ -231,6 +242,104 @@ def run_impl(case):
         except Exception as e:                       # the sibling call must not fail when the target call did not
             info["sibling_error"] = exc_name(e)
     return info
+
+# ------------------------------------------------------------------ histories on ONE model object
+
+MUTATORS = ["refresh", "refresh", "set_mapping", "set_mapping", "set_reverse_mapping", "rebuild", "imul", "imul_dict",
+            "additem", "copy_convert"]
+
+def gen_convert(rng, puso_only_dyadic=True):
+    r = rng.random()
+    deg = None if r < 0.2 else rng.choice([2, 2, 3, 4])
+    lam = rng.choice(LAMS)
+    while not all(dyadic(x) for x in lam_numbers(lam)):
+        lam = rng.choice(LAMS)
+    return {"op": "convert", "target": rng.choice(TARGETS), "deg": deg, "lam": lam}
+
+def gen_history(rng, big=False):
+    """a model (raw keys in random label order, so that refresh() changes the mapping) converted several times,
+    with steps in between that change the mapping and/or the terms of the SAME object"""
+    a = gen_abstract(rng, big)
+    while len(a["terms"]) < 2 or max(len(k) for k, _ in a["terms"]) < 2:
+        a = gen_abstract(rng, big)
+    terms = [[k, v if dyadic(v) else rng.choice(COEFS[:13])] for k, v in a["terms"]]
+    steps = [gen_convert(rng)]
+    for _ in range(rng.randint(1, 3)):
+        for _ in range(rng.choice([1, 1, 2])):
+            m = rng.choice(MUTATORS)
+            st = {"op": m, "seed": rng.randrange(1 << 30)}
+            if m == "imul":
+                st["c"] = rng.choice(["2", "-1", "1/2", "3"])
+            if m == "additem":
+                st["v"] = rng.choice(["1", "-2", "1/2"])
+            steps.append(st)
+        steps.append(gen_convert(rng))
+    return {"family": "history", "kind": rng.choice(KINDS if rng.random() < 0.5 else sorted(SPIN)), "nv": a["nv"],
+            "terms": terms, "num": rng.choice(["int", "frac", "float"]),
+            "labels": rng.choice(["int", "str", "tuple", "mixed"]), "steps": steps}
+
+def apply_mutator(M, L, st, num):
+    """a step between two conversions; returns the (possibly new) object that the next conversion is called on"""
+    import random
+    r = random.Random(st["seed"])
+    op = st["op"]
+    if op == "refresh":
+        M.refresh()
+    elif op in ("set_mapping", "set_reverse_mapping"):
+        mp = M.mapping
+        labels = list(mp)
+        perm = list(range(len(labels)))
+        r.shuffle(perm)
+        if op == "set_mapping":
+            M.set_mapping({lab: perm[mp[lab]] for lab in labels})
+        else:
+            M.set_reverse_mapping({perm[mp[lab]]: lab for lab in labels})
+    elif op == "rebuild":
+        items = list(M.items())
+        M.clear()
+        r.shuffle(items)
+        for k, v in items:
+            k = list(k); r.shuffle(k)
+            M[tuple(k)] += v
+    elif op == "imul":
+        M *= num_of(st["c"], num)
+    elif op == "imul_dict":
+        M *= {(): num_of("2", num)}
+    elif op == "additem":
+        keys = [k for k in M if k]
+        if keys:
+            M[r.choice(keys)] += num_of(st["v"], num)
+    elif op == "copy_convert":
+        M.copy().to_qubo()          # a conversion of a copy must not influence the original
+    return M
+
+def consistent_state(M):
+    mp = M.mapping
+    return sorted(mp.values()) == list(range(M.num_binary_variables)) and set(mp) == M.variables
+
+def run_history(h, rng):
+    """executes the history on one real object; returns [(virtual case, info)] for its conversions, the oracle
+    evaluated at the moment of each conversion"""
+    M, L = build(h)
+    out = []
+    for idx, st in enumerate(h["steps"]):
+        if st["op"] != "convert":
+            try:
+                M = apply_mutator(M, L, st, h["num"])
+            except Exception as e:
+                out.append((dict(h, target="qubo", deg=None, lam=["default"], pairs=None, hist=h, step=idx),
+                            {"mutator_error": "%s in step %d (%s)" % (exc_name(e), idx, st["op"])}))
+                break
+            continue
+        vc = {"family": "history", "kind": h["kind"], "nv": h["nv"], "terms": h["terms"], "num": h["num"],
+              "labels": h["labels"], "target": st["target"], "deg": st["deg"], "lam": st["lam"], "pairs": None,
+              "step": idx, "hist": h}
+        if not consistent_state(M):
+            vc["stale"] = True
+        info = observe(vc, M, L)
+        info["oracle"] = oracle(vc, info, rng)
+        out.append((vc, info))
+    return out
 
 def model_line(case, info):
     return {"op": "reduce", "spin": case["kind"] in SPIN, "target": case["target"], "terms": info["terms"],
@@ -361,8 +470,15 @@ def oracle(case, info, rng):
 def nontrivial(info, model):
     return bool(model.get("cert")) and any(t["steps"] for t in model["cert"])
 
-def process(ctx, cases, label_groups=None):
-    infos = [run_impl(c) for c in cases]
+def process(ctx, cases, label_groups=None, infos=None):
+    if infos is None:
+        infos = [run_impl(c) for c in cases]
+    bad_mut = [(c, i) for c, i in zip(cases, infos) if "mutator_error" in i]
+    for c, i in bad_mut:
+        ctx.count("history:mutator-error")
+        ctx.notes.append("history step raised: " + i["mutator_error"])
+    keep = [k for k, i in enumerate(infos) if "mutator_error" not in i]
+    cases, infos = [cases[k] for k in keep], [infos[k] for k in keep]
     models = common.run_driver([model_line(c, i) for c, i in zip(cases, infos)])
     hooked = [i for i, inf in enumerate(infos) if inf.get("cert") is not None]
     rep = common.run_driver([replay_line(cases[i], infos[i]) for i in hooked])
@@ -411,8 +527,13 @@ def process(ctx, cases, label_groups=None):
                 if hc != mc:
                     ctx.diff("exact-cert", c, hc, mc)
         # direct oracle
-        bad, tag = oracle(c, inf, ctx.rng)
+        bad, tag = inf["oracle"] if "oracle" in inf else oracle(c, inf, ctx.rng)
         ctx.count("oracle:" + tag)
+        if c.get("family") == "history":
+            ctx.count("history:conversion-%d" % sum(1 for s in c["hist"]["steps"][: c["step"]] if s["op"] == "convert"))
+            for s in c["hist"]["steps"][: c["step"]]:
+                if s["op"] != "convert":
+                    ctx.count("history:after-" + s["op"])
         if bad:
             ctx.violation("C01:" + tag, c, bad)
     if label_groups:
@@ -464,8 +585,18 @@ def check(ctx):
                 g.append(len(cases)); cases.append(c)
             groups.append(g)
     process(ctx, cases, groups)
+    # histories: the SAME object converted several times with mapping- / term-changing steps in between
+    hist = [gen_history(rng) for _ in range(ctx.scale(350, 5000))]
+    process_histories(ctx, hist)
     if ctx.diffs and not ctx.violations:
         search(ctx)
+
+def process_histories(ctx, hist):
+    vcs, infos = [], []
+    for h in hist:
+        for vc, info in run_history(h, ctx.rng):
+            vcs.append(vc); infos.append(info)
+    process(ctx, vcs, None, infos)
 
 def search(ctx):
     """failing-input search after a correspondence difference: the direct oracle on variants of the disagreeing
@@ -501,4 +632,6 @@ def replay(ctx, payload):
         return check(ctx)
     c = dict(c)
     c.setdefault("labels", "int")
+    if c.get("family") == "history":
+        return process_histories(ctx, [c.get("hist", c)])
     process(ctx, [c])
